@@ -46,6 +46,10 @@ type spec struct {
 	Erro   bool                // emit the Traceable table of package erro
 	Pure   map[string][]string // name -> root functions whose transitive package-local writes are emitted
 	Lits   map[string][2][]string // function -> (watched callee names, watched variables): skeleton of its function literals
+	Locks  map[string][]string    // name -> package-level variables whose access sites and their protection are emitted
+	LockHelpers map[string]string // helper function -> lock it takes / releases
+	LockIgnore  []string          // exported entry points that goom's own packages never call
+	MethodCallers map[string][3]string // name -> (type's package suffix, type, method): functions of this package that call it
 }
 
 var specs = []spec{
@@ -75,6 +79,15 @@ var specs = []spec{
 	{Out: "DebugShape", Arch: "amd64", Pkg: ".", Lits: map[string][2][]string{
 		"interceptDebugInfo": {{"originPFunc", "Call", "CallSlice", "IsVariadic", "originImp"}, {"results", "params"}},
 	}},
+	{Out: "LocksPatch", Arch: "amd64", Pkg: "./internal/patch", Locks: map[string][]string{"patch_globals": {"patches", "call:WriteTo"}},
+		LockHelpers: map[string]string{"lock": "patchesLock", "unlock": "patchesLock"},
+		LockIgnore: []string{"UnpatchAll", "Unpatch", "UnpatchInstanceMethod"}},
+	{Out: "LocksBytecode", Arch: "amd64", Pkg: "./internal/bytecode", Locks: map[string][]string{"bytecode_globals": {"funcSizeCache"}}},
+	{Out: "LocksUnexports", Arch: "amd64", Pkg: "./internal/unexports2", Locks: map[string][]string{"unexports_globals": {"funcAlignment", "varAlignment"}},
+		LockIgnore: []string{"ExposeFunction"}},
+	{Out: "LocksMemory", Arch: "amd64", Pkg: "./internal/bytecode/memory", Locks: map[string][]string{"memory_writes": {"call:mProtectCrossPage", "call:copy", "call:writeTo"}}},
+	{Out: "UnpatchCallersRoot", Arch: "amd64", Pkg: ".", MethodCallers: map[string][3]string{"root_guard_unpatch": {"internal/patch", "Guard", "Unpatch"}}},
+	{Out: "UnpatchCallersProxy", Arch: "amd64", Pkg: "./internal/proxy", MethodCallers: map[string][3]string{"proxy_guard_unpatch": {"internal/patch", "Guard", "Unpatch"}}},
 	{Out: "Page", Arch: "amd64", Pkg: "./internal/bytecode/memory", Funcs: []string{"PageStart"}, Loops: []string{"mProtectCrossPage"}, Shapes: []string{"WriteTo"}},
 }
 
@@ -131,7 +144,7 @@ func runSpec(repo, out string, sp spec) result {
 	if len(sp.Shapes) > 0 {
 		sb.WriteString("From Goom Require Import Model.WriteTo.\n")
 	}
-	if len(sp.Orders) > 0 || sp.Erro || len(sp.Pure) > 0 || len(sp.Lits) > 0 {
+	if len(sp.Orders) > 0 || sp.Erro || len(sp.Pure) > 0 || len(sp.Lits) > 0 || len(sp.Locks) > 0 || len(sp.MethodCallers) > 0 {
 		sb.WriteString("From Coq Require Import String.\nOpen Scope string_scope.\n")
 	}
 	sb.WriteString("Open Scope Z_scope.\n\n")
@@ -239,6 +252,39 @@ func runSpec(repo, out string, sp spec) result {
 		sort.Strings(ns)
 		for _, n := range ns {
 			s, err := trLitTrace(pkg, n, sp.Lits[n][0], sp.Lits[n][1])
+			if err != nil {
+				res.Failed[n] = err.Error()
+				continue
+			}
+			sb.WriteString(s)
+			res.OK = append(res.OK, n)
+		}
+	}
+	{
+		var ns []string
+		for n := range sp.Locks {
+			ns = append(ns, n)
+		}
+		sort.Strings(ns)
+		for _, n := range ns {
+			s, err := trLocks(pkg, n, sp.Locks[n], sp.LockHelpers, sp.LockIgnore)
+			if err != nil {
+				res.Failed[n] = err.Error()
+				continue
+			}
+			sb.WriteString(s)
+			res.OK = append(res.OK, n)
+		}
+	}
+	{
+		var ns []string
+		for n := range sp.MethodCallers {
+			ns = append(ns, n)
+		}
+		sort.Strings(ns)
+		for _, n := range ns {
+			mc := sp.MethodCallers[n]
+			s, err := trMethodCallers(pkg, n, mc[0], mc[1], mc[2])
 			if err != nil {
 				res.Failed[n] = err.Error()
 				continue
